@@ -158,7 +158,11 @@ class Affine2D(NamedTuple):
 
     def is_degenerate(self) -> bool:
         """Return True if [a b c d] matrix is degenerate (determinant is 0)."""
-        return abs(self.determinant()) <= float_info.epsilon
+        # relative to the size of the products that make up the determinant: a tiny or a
+        # huge uniform scale (1e-8, 1e8) is invertible, a*d == b*c up to rounding is not
+        return abs(self.determinant()) <= 4 * float_info.epsilon * (
+            abs(self.a * self.d) + abs(self.b * self.c)
+        )
 
     def inverse(self):
         """Return the inverse Affine2D transformation.
